@@ -71,6 +71,9 @@ pub struct Stats {
     pub takeover_at_limit: bool,
     pub qos2_in_completed: u64,
     pub acks_received: u64,
+    pub will_forwards: u64,
+    pub wills_suppressed: u64,
+    pub shared_forwards: u64,
 }
 
 pub struct Interp<'a> {
@@ -221,6 +224,15 @@ impl<'a> Interp<'a> {
                 let sub_id = if spec_v5 { *sub_id } else { None };
                 if self.strict(*c) {
                     let eff = self.effective_subs(s);
+                    // the same filter twice in one SUBSCRIBE is a repeated subscription too
+                    let mut seen: Vec<&String> = Vec::new();
+                    for (f, _) in filters {
+                        if seen.contains(&f) {
+                            self.stats.excluded_known += 1;
+                            return Ok(());
+                        }
+                        seen.push(f);
+                    }
                     for (f, q) in filters {
                         let existing = eff.iter().find(|x| x.0 == *f);
                         if av.resub_qos && existing.is_some_and(|x| x.1 != *q) {
@@ -571,6 +583,11 @@ impl<'a> Interp<'a> {
                 return Ok(());
             }
         }
+        if self.flags.no_takeover && self.slots[c].cur.is_some_and(|s| self.sim.conns[s].state == ConnState::Live) {
+            // the connection of this client id is (or may still be) registered
+            self.stats.skipped += 1;
+            return Ok(());
+        }
         let spec = self.specs[c].clone();
         let alias_max = if spec.v5 { alias_max } else { 0 };
         let will_msg = will.map(|w| {
@@ -853,6 +870,9 @@ impl<'a> Interp<'a> {
                 let before = self.model.wills_fired.len();
                 self.model.on_publish_will(&id);
                 self.stats.wills_fired += (self.model.wills_fired.len() - before) as u64;
+                if self.model.wills_fired.len() == before {
+                    self.stats.wills_suppressed += 1;
+                }
             }
             Ev::Other => {}
         }
@@ -994,6 +1014,22 @@ impl<'a> Interp<'a> {
     }
 
     fn end_sim_conn(&mut self, serial: usize) {
+        // post-mortem: what the broker had pushed to this connection before it ended counts
+        // as forwarded (e.g. a shared group's message handed to a member that then went away)
+        if self.sim.conns[serial].state == ConnState::Live {
+            let flags = self.flags;
+            while let Some(notifs) = self.sim.drain(serial) {
+                let notifs: Vec<Notification> = notifs.into_iter().collect();
+                if notifs.is_empty() {
+                    continue;
+                }
+                let was = self.model.conns[serial].tainted;
+                // assertions about a connection that no longer exists are not meaningful
+                self.model.conns[serial].tainted = true;
+                let _ = self.model.observe(serial, &mut self.views[serial], &notifs, flags);
+                self.model.conns[serial].tainted = was;
+            }
+        }
         self.sim.conns[serial].state = ConnState::Ended;
         let slot = self.sim.conns[serial].slot;
         if self.slots[slot].cur == Some(serial) {
@@ -1126,5 +1162,7 @@ pub fn run_history(h: &Hist, flags: &Flags, obs: &mut Obs) -> Result<Stats, Fail
     it.finish(obs);
     it.stats.qos2_in_completed = it.views.iter().map(|v| v.pubcomp_received).sum();
     it.stats.acks_received = it.views.iter().map(|v| v.acks_received).sum();
+    it.stats.will_forwards = it.views.iter().map(|v| v.will_forwards).sum();
+    it.stats.shared_forwards = it.model.groups.iter().map(|g| g.delivered.len() as u64).sum();
     r.map(|_| it.stats.clone())
 }
